@@ -276,8 +276,7 @@ def replay_one(binary, info, method, kind, args):
     exp = r.get("expected")
     if exp is not None and r["legal"] and len(words) == 1:
         want = render.render(exp)
-        got = render.normalise(dis_na[0])
-        if render.normalise(want) == got:
+        if render.same(want, dis_na[0], dis[0]):
             raise common.Inconclusive("reference decoder rejects %s -> %s but llvm-mc prints the expected text '%s' (decoder/spec defect)"
                                       % (call, ["%08x" % w for w in words], want))
     hexw = " ".join("%08x" % w for w in words)
@@ -295,6 +294,11 @@ def replay_one(binary, info, method, kind, args):
 REFUSAL_HINT = re.compile(r'assertion failed|attempt to|unwrap|expect|unreachable|not implemented|placeholder message|index out of bounds|illegal value|overflow|explicit panic|unbound label')
 
 
+# harness kinds in which a panic inside the assembler is a refusal (only the post-assertions count):
+# H_any, and the far label harness (a distance out of the instruction's range must be refused)
+ANY_STYLE = ("any", "far")
+
+
 def classify(h, r):
     """-> ('pass'|'fail'|'inconclusive', reason)"""
     if r is None or r.verdict is None:
@@ -306,7 +310,7 @@ def classify(h, r):
     posts = r.post()
     if not posts:
         return "inconclusive", "post-assertions missing from the output"
-    if h["kind"] == "any":
+    if h["kind"] in ANY_STYLE:
         if any(c[1] == "FAILURE" for c in posts):
             return "fail", "post-assertion fails"
         if not all(c[1] == "SUCCESS" for c in posts):
@@ -356,7 +360,7 @@ def main(tier):
                 if pr is None or not pr.playback:
                     inconclusive.append((h["name"], "no counterexample values could be extracted"))
                     continue
-                wanted = [p for p in pr.playback if "POST" in p[0]] if h["kind"] == "any" else \
+                wanted = [p for p in pr.playback if "POST" in p[0]] if h["kind"] in ANY_STYLE else \
                     [p for p in pr.playback if "VACUITY" not in p[0]]
                 reproduced = False
                 seen = set()
@@ -380,7 +384,7 @@ def main(tier):
 
         discharged = sum(1 for h in hs if verdicts[h["name"]][0] == "pass")
         times = sorted((results[h["name"]].time or 0.0) for h in hs if h["name"] in results)
-        refusal_overflow = sorted({h["method"] for h in hs if h["kind"] == "any" and h["name"] in results
+        refusal_overflow = sorted({h["method"] for h in hs if h["kind"] in ANY_STYLE and h["name"] in results
                                    and any("overflow" in c[2] for c in results[h["name"]].failed())})
         cov = {
             "obligations": len(hs),
@@ -454,24 +458,34 @@ def oracle_validation(binary, info):
             words.append(r["words"][0])
             exps.append(r)
     dis = llvm_mc(words, True)
+    dis_al = llvm_mc(words, False)
     agree = 0
-    for r, d in zip(exps, dis):
-        want = render.normalise(render.render(r["expected"]))
-        got = render.normalise(d)
-        if want == got:
+    for r, d, d2 in zip(exps, dis, dis_al):
+        # an ok tuple: decoded == expected (or its accepted equivalent); what is validated here is that
+        # llvm-mc reads the same instruction out of the word as the reference decoder + spec do
+        shown = r["decoded"][0] if r["ok"] and r["decoded"][0] is not None else r["expected"]
+        if render.same(render.render(shown), d, d2):
             agree += 1
         elif r["ok"]:
-            bad.append("%s%s: word %08x llvm-mc '%s' vs spec '%s'" % (r["method"], r["args"], r["words"][0], d, render.render(r["expected"])))
+            bad.append("%s%s: word %08x llvm-mc '%s' vs spec '%s'" % (r["method"], r["args"], r["words"][0], d, render.render(shown)))
     # random words: reference decoder vs llvm-mc
     import random
     rnd = random.Random(common.seed() + 8)
     rw = [rnd.getrandbits(32) for _ in range(int(os.environ.get("VERIF_C08_RANDOM_WORDS", "60000")))]
+    # neighbours of the words dora-asm really emits: 1..3 flipped bits (register / immediate / opcode fields)
+    for wd in words:
+        for _ in range(12):
+            x = wd
+            for _ in range(rnd.randint(1, 3)):
+                x ^= 1 << rnd.randrange(32)
+            rw.append(x)
     dec = native(binary, ["decode-stdin"], stdin="\n".join(str(w) for w in rw) + "\n")
     valid = [(d["word"], d["decoded"]) for d in dec if d["decoded"] is not None]
     dis = llvm_mc([w for w, _ in valid], True)
+    dis_al = llvm_mc([w for w, _ in valid], False)
     ragree = 0
-    for (w, d), t in zip(valid, dis):
-        if render.normalise(render.render(d)) == render.normalise(t):
+    for (w, d), t, t2 in zip(valid, dis, dis_al):
+        if render.same(render.render(d), t, t2):
             ragree += 1
         else:
             bad.append("random word %08x: decoder '%s' vs llvm-mc '%s'" % (w, render.render(d), t))
